@@ -19,3 +19,9 @@ Proof. vm_compute. reflexivity. Qed.
 Lemma main_out_block_obs : obs_blk main_out_block = true.
 Proof. vm_compute. reflexivity. Qed.
 
+
+Lemma main_abort_checked : abort_checker main_prog = true.
+Proof. vm_compute. reflexivity. Qed.
+
+Lemma main_step_checked : step_checker main_prog = true.
+Proof. vm_compute. reflexivity. Qed.
